@@ -22,7 +22,7 @@ from .. import common as C
 
 PID = 'C20'
 PROPS_FILE = 'Props/C20.v'
-COQ_HEADER = 'From Scales Require Import Model.Proxy Model.Uri Model.ProxyUri.'
+COQ_HEADER = 'From Coq Require Import String.\nFrom Scales Require Import Model.Proxy Model.Uri Model.ProxyUri.\nLocal Open Scope string_scope.'
 COQ_CASE_TYPE = 'ProxyUri.case'
 COQ_CHECK = 'ProxyUri.check_case'
 COQ_EXPLAIN = 'ProxyUri.explain_case'
@@ -886,14 +886,20 @@ def monitor(case, obs):
 # translation to Coq terms
 # ---------------------------------------------------------------------------------------------
 def _text(s):
+  """str -> Coq term of type list Z (code points); printable ASCII goes through Proxy.zs (cheap to parse)."""
+  if s and all(32 <= ord(c) < 127 for c in s):
+    return '(zs "%s")' % s.replace('"', '""')
   return C.zlist([ord(c) for c in s])
+
+
+def _zs(xs):
+  return '[' + ';'.join(str(int(x)) if x >= 0 else '(%d)' % x for x in xs) + ']%Z'
 
 
 KIND = {'def': 'KFunction', 'async': 'KFunction', 'lambda': 'KFunction', 'static': 'KFunction', 'classm': 'KMethod',
         'bound': 'KMethod', 'builtin': 'KBuiltin', 'prop': 'KOther', 'data': 'KOther', 'partial': 'KOther',
         'callable': 'KOther', 'class': 'KOther'}
-OBJECT_MEMBERS = [('__class__', 'KOther'), ('__doc__', 'KOther'), ('__init_subclass__', 'KBuiltin'), ('__module__', 'KOther'),
-                  ('__new__', 'KBuiltin'), ('__repr__', 'KOther'), ('__subclasshook__', 'KBuiltin')]
+OBJECT_MEMBERS = [('__doc__', 'KOther'), ('__init_subclass__', 'KBuiltin'), ('__repr__', 'KOther')]   # a few of object's own
 
 
 def model_members(case, mro):
@@ -908,7 +914,25 @@ def model_members(case, mro):
   return ms
 
 
-def _pobs(op, o):
+class _Names(object):
+  """Interns the strings of one case: each distinct name is written once (let-bound), string literals are
+  what makes Coq slow on these terms."""
+
+  def __init__(self):
+    self.ids = {}
+
+  def __call__(self, s):
+    if s == '':
+      return '[]'
+    if s not in self.ids:
+      self.ids[s] = 's%d' % len(self.ids)
+    return self.ids[s]
+
+  def wrap(self, body):
+    return '(' + ''.join('let %s := %s in ' % (v, _text(k)) for k, v in self.ids.items()) + body + ')'
+
+
+def _pobs(op, o, nm):
   r = o.get('res')
   if r == 'field':
     return 'PField'
@@ -932,24 +956,25 @@ def _pobs(op, o):
   gets = o.get('gets', -1)
   if o.get('ncalls') != 1 or not o.get('args_tuple') or not o.get('kwargs_dict') or not o.get('timeout_none') or o.get('own_ran'):
     gets = -100
-  kw = C.lst(['(%s, %s)' % (_text(k), C.zlit(i)) for k, i in o.get('kwargs', [])])
-  return '(PCall (CallObs %s %s %s %s %s))' % (_text(o.get('method', '')), C.zlist(o.get('args', [])), kw, rt, C.zlit(gets))
+  kw = C.lst(['(%s, %s)' % (nm(k), C.zlit(i)) for k, i in o.get('kwargs', [])])
+  return '(PCall (CallObs %s %s %s %s %s))' % (nm(o.get('method', '')), _zs(o.get('args', [])), kw, rt, C.zlit(gets))
 
 
 def to_coq(case, obs):
   if case['kind'] == 'proxy':
     if 'mro' not in obs:
       return None
-    ms = C.lst(['(Mem %s %s %s)' % (_text(n), k, _text(f)) for n, k, f in model_members(case, obs['mro'])])
+    nm = _Names()
+    ms = C.lst(['(Mem %s %s %s)' % (nm(n), k, nm(f)) for n, k, f in model_members(case, obs['mro'])])
     probes = []
     for oi, (op, o) in enumerate(zip(case['ops'], obs.get('probes', []))):
       d = op['disp']
       dt = '(DRaise %s)' % C.zlit(oi) if d == 'raise' else '(DPending %s (%s %s))' % (
           C.zlit(oi), 'SValue' if d == 'value' else 'SError', C.zlit(oi))
-      pr = '(Probe %s %s %s %s)' % (_text(op['name']), C.zlist(op['args']),
-                                    C.lst(['(%s, %s)' % (_text(k), C.zlit(i)) for k, i in op['kwargs']]), dt)
-      probes.append('(%s, %s)' % (pr, _pobs(op, o)))
-    return 'CProxy (PCase %s %s %s)' % (ms, C.blit(obs.get('ctor') == 'ok'), C.lst(probes))
+      pr = '(Probe %s %s %s %s)' % (nm(op['name']), _zs(op['args']),
+                                    C.lst(['(%s, %s)' % (nm(k), C.zlit(i)) for k, i in op['kwargs']]), dt)
+      probes.append('(%s, %s)' % (pr, _pobs(op, o, nm)))
+    return nm.wrap('CProxy (PCase %s %s %s)' % (ms, C.blit(obs.get('ctor') == 'ok'), C.lst(probes)))
   uri = case_uri(case)
   if any(ord(c) > 127 and (c.isdecimal() or c.isspace()) for c in uri):
     return None                # int() on non-ASCII digits/blanks is outside the model
